@@ -97,7 +97,7 @@ func c01Big(c *ctx, kind string, n int, pkg string, le bool, srid int) {
 		}
 		if pkg == "wkb" {
 			same = append(same, eq(wkb.Unmarshal(data)))
-			same = append(same, eq(wkb.NewDecoder(bytes.NewReader(data)).Decode()))
+			same = append(same, eq(wkb.NewDecoder(c01Reader(c.rng, data)).Decode()))
 			s := wkb.Scanner(nil)
 			err := s.Scan(data)
 			same = append(same, eq(s.Geometry, err))
@@ -107,7 +107,7 @@ func c01Big(c *ctx, kind string, n int, pkg string, le bool, srid int) {
 		} else {
 			v, sr, err := ewkb.Unmarshal(data)
 			same = append(same, eq(v, err)*b2i(sr == srid))
-			v, sr, err = ewkb.NewDecoder(bytes.NewReader(data)).Decode()
+			v, sr, err = ewkb.NewDecoder(c01Reader(c.rng, data)).Decode()
 			same = append(same, eq(v, err)*b2i(sr == srid))
 			s := ewkb.Scanner(nil)
 			err = s.Scan(data)
